@@ -45,7 +45,7 @@ REQUIRED_REACH = [
 ]
 
 ENTRIES = ("string", "with_emitter", "assemble", "patch", "cli")
-SLOTS_PER_CLASS = int(__import__("os").environ.get("VERIF_C14_SLOTS", "10"))
+SLOTS_PER_CLASS = int(__import__("os").environ.get("VERIF_C14_SLOTS", "8"))
 FILE_ENTRIES = ("with_emitter", "assemble", "patch", "cli")
 
 # ---------------------------------------------------------------------------
@@ -77,6 +77,9 @@ ERROR_CLASSES: dict[str, dict[str, Any]] = {
     "for_without_bound": {"scope": "parse", "text": ".for i_zq := 0 {\n}"},
     "stray_closing_brace": {"scope": "parse", "text": "}", "top_only": True},
     "undefined_scope_member": {"scope": "asm", "text": ".dl nosuch_zq.member_zq"},
+    # the scope exists, the name exists outside it, but it is not a member of the scope
+    "outer_symbol_through_scope": {"scope": "asm", "text": "outer_zq = 4\n.scope sc_zq {\n    in_zq:\n    .db 1\n}\n.dw sc_zq.outer_zq", "top_only": True},
+    "outer_label_through_scope": {"scope": "asm", "text": "outl_zq:\n.scope sd_zq {\n    ind_zq:\n    .db 1\n}\n.dl sd_zq.outl_zq", "top_only": True},
     "undefined_in_assign": {"scope": "asm", "text": "assign_zq := undefined_zq + 1"},
     "undefined_in_for_bound": {"scope": "asm", "text": ".for i_zq := 0, undefined_zq {\n    nop\n}"},
     "undefined_ips_delta": {"scope": "asm", "text": ".include_ips 'missing_zq.ips', undefined_zq"},
@@ -169,7 +172,7 @@ def gen_case(cseed: int, tier: str) -> dict[str, Any]:
 
 
 def plan(tier: str) -> dict[str, Any]:
-    return {"fixed": [], "seeded": 40 if tier == "quick" else 0, "chunk": 1, "wall_cap_s": 240, "minimise_s": 30}
+    return {"fixed": [], "seeded": 32 if tier == "quick" else 0, "chunk": 1, "wall_cap_s": 240, "minimise_s": 30}
 
 
 def entry_spec(entry: str, prog: progen.Prog, copier: bool, cli_format: str) -> dict[str, Any]:
